@@ -7,6 +7,7 @@ configuration, `w` any world whose rule lookup is the configuration's engine.
 import Dippy.Lemmas.LastMatch
 import Dippy.Lemmas.GlobLit
 import Dippy.Lemmas.Walk
+import Dippy.Props.C03
 
 set_option linter.unusedSimpArgs false
 
@@ -91,20 +92,17 @@ example : patternMatches ⟨"/h", lexResolve⟩ "rm" true "rm -rf x" "/w" false 
 
 variable (w : World) (rec : Rec) (h : HelpTables)
 
-/-- the words after the environment-assignment prefix -/
-def tokensOf (words : List String) : List String := words.drop (skipAssign words)
-
-theorem simpleCmd_unfold (n : Nat) (words : List String) (cwd : String) (rem : Bool)
-    (hne : (tokensOf words).isEmpty = false) :
-    simpleCmd w rec h (n + 1) words cwd rem
-      = match w.matchCommand (tokensOf words) cwd rem with
+/-- `_analyze_simple_command` unfolded once (its words start at the program name) -/
+theorem simpleCmd_unfold (n : Nat) (tokens : List String) (cwd : String) (rem : Bool)
+    (hne : tokens.isEmpty = false) :
+    simpleCmd w rec h (n + 1) tokens cwd rem
+      = match w.matchCommand tokens cwd rem with
         | some m =>
           match m.decision with
-          | .allow => ⟨.allow, (tokensOf words).headD "" ++ " (" ++ m.pattern ++ ")"⟩
-          | .deny => ⟨.deny, (tokensOf words).headD "" ++ ": " ++ matchMsg m⟩
-          | .ask => ⟨.ask, (tokensOf words).headD "" ++ ": " ++ matchMsg m⟩
+          | .allow => ⟨.allow, tokens.headD "" ++ " (" ++ m.pattern ++ ")"⟩
+          | .deny => ⟨.deny, tokens.headD "" ++ ": " ++ matchMsg m⟩
+          | .ask => ⟨.ask, tokens.headD "" ++ ": " ++ matchMsg m⟩
         | none =>
-          let tokens := tokensOf words
           let base := tokens.headD ""
           if w.wrapper base && tokens.length > 1 then
             if base == "command" && (tokens.getD 1 "" == "-v" || tokens.getD 1 "" == "-V") then
@@ -114,75 +112,75 @@ theorem simpleCmd_unfold (n : Nat) (words : List String) (cwd : String) (rem : B
               | [] => ⟨.ask, base⟩
               | inner => simpleCmd w rec h n inner cwd rem
           else builtinVerdict w rec h.helpWords h.helpFlags2 h.helpFlagsLast tokens cwd rem := by
-  have hlen : skipAssign words < words.length := by
-    unfold tokensOf at hne
-    rcases Nat.lt_or_ge (skipAssign words) words.length with hc | hc
-    · exact hc
-    · have : words.drop (skipAssign words) = [] := List.drop_eq_nil_of_le hc
-      simp [this] at hne
-  have hw : words.isEmpty = false := by
-    cases words with
-    | nil => simp at hlen
-    | cons _ _ => rfl
   rw [simpleCmd]
-  simp only [hw, Bool.false_eq_true, ↓reduceIte, ge_iff_le, Nat.not_le.mpr hlen, tokensOf]
+  simp only [hne, Bool.false_eq_true, ↓reduceIte]
   rfl
 
 /-- a matching rule decides the verdict, whatever the built-in tables and handlers say -/
-theorem rule_decides (n : Nat) (words : List String) (cwd : String) (rem : Bool) (m : Match)
-    (hne : (tokensOf words).isEmpty = false)
-    (hm : w.matchCommand (tokensOf words) cwd rem = some m) :
-    (simpleCmd w rec h (n + 1) words cwd rem).action = m.decision := by
+theorem rule_decides (n : Nat) (tokens : List String) (cwd : String) (rem : Bool) (m : Match)
+    (hne : tokens.isEmpty = false)
+    (hm : w.matchCommand tokens cwd rem = some m) :
+    (simpleCmd w rec h (n + 1) tokens cwd rem).action = m.decision := by
   rw [simpleCmd_unfold _ _ _ _ _ _ _ hne, hm]
   cases hd : m.decision <;> simp [hd]
 
 /-- … and a deny (or ask) carries the rule's message, or its pattern when it has none -/
-theorem deny_message (n : Nat) (words : List String) (cwd : String) (rem : Bool) (m : Match)
-    (hne : (tokensOf words).isEmpty = false)
-    (hm : w.matchCommand (tokensOf words) cwd rem = some m) (hd : m.decision ≠ .allow) :
-    (simpleCmd w rec h (n + 1) words cwd rem).reason
-      = (tokensOf words).headD "" ++ ": " ++ Py.orElse m.message m.pattern := by
+theorem deny_message (n : Nat) (tokens : List String) (cwd : String) (rem : Bool) (m : Match)
+    (hne : tokens.isEmpty = false)
+    (hm : w.matchCommand tokens cwd rem = some m) (hd : m.decision ≠ .allow) :
+    (simpleCmd w rec h (n + 1) tokens cwd rem).reason
+      = tokens.headD "" ++ ": " ++ Py.orElse m.message m.pattern := by
   rw [simpleCmd_unfold _ _ _ _ _ _ _ hne, hm]
   cases hdd : m.decision <;> simp_all [matchMsg]
 
 /-- when no rule matches, the verdict is the built-in one (it does not mention the rules) -/
-theorem no_rule_builtin (n : Nat) (words : List String) (cwd : String) (rem : Bool)
-    (hne : (tokensOf words).isEmpty = false)
-    (hm : w.matchCommand (tokensOf words) cwd rem = none)
-    (hw : w.wrapper ((tokensOf words).headD "") = false) :
-    simpleCmd w rec h (n + 1) words cwd rem
-      = builtinVerdict w rec h.helpWords h.helpFlags2 h.helpFlagsLast (tokensOf words) cwd rem := by
+theorem no_rule_builtin (n : Nat) (tokens : List String) (cwd : String) (rem : Bool)
+    (hne : tokens.isEmpty = false)
+    (hm : w.matchCommand tokens cwd rem = none)
+    (hw : w.wrapper (tokens.headD "") = false) :
+    simpleCmd w rec h (n + 1) tokens cwd rem
+      = builtinVerdict w rec h.helpWords h.helpFlags2 h.helpFlagsLast tokens cwd rem := by
   rw [simpleCmd_unfold _ _ _ _ _ _ _ hne, hm]
   simp only [hw, Bool.false_and, Bool.false_eq_true, ↓reduceIte]
 
-/-- an environment-assignment prefix hides nothing: the verdict is that of the bare command -/
-theorem env_prefix_transparent (n : Nat) (assigns c : List String) (cwd : String) (rem : Bool)
-    (ha : ∀ a ∈ assigns, isAssignLike a = true) (hc : skipAssign c = 0) (hne : c.isEmpty = false) :
-    simpleCmd w rec h (n + 1) (assigns ++ c) cwd rem = simpleCmd w rec h (n + 1) c cwd rem := by
-  have hs : ∀ (as : List String), (∀ a ∈ as, isAssignLike a = true) → skipAssign (as ++ c) = as.length := by
-    intro as has
-    induction as with
-    | nil => simpa using hc
-    | cons a as ih =>
-      have h1 := has a (List.mem_cons_self ..)
-      simp [skipAssign, h1, ih (fun x hx => has x (List.mem_cons_of_mem _ hx))]
-  have ht : tokensOf (assigns ++ c) = tokensOf c := by
-    unfold tokensOf
-    rw [hs assigns ha, hc]
-    simp
-  have hne' : (tokensOf c).isEmpty = false := by unfold tokensOf; rw [hc]; simpa using hne
-  rw [simpleCmd_unfold _ _ _ _ _ _ _ (by rw [ht]; exact hne'), simpleCmd_unfold _ _ _ _ _ _ _ hne', ht]
+/-- an environment-assignment prefix hides nothing: the rules (and everything else) see exactly the
+    words after the prefix – the command proper of `A=1 B=2 cmd …` is the simple command `cmd …` -/
+theorem env_prefix_transparent (ws : List Word) (cwd : String) (rem : Bool)
+    (hlt : (mkCmdCtx w ws).baseIdx < (mkCmdCtx w ws).words.length)
+    (hb : ((mkCmdCtx w ws).base == "[" || (mkCmdCtx w ws).base == "test") = false) :
+    C03.proper w rec h ws cwd rem
+      = (simpleCmd w rec h ((mkCmdCtx w ws).words.length + 1)
+          ((mkCmdCtx w ws).words.drop (mkCmdCtx w ws).baseIdx) cwd rem).action := by
+  unfold C03.proper
+  have hne : (mkCmdCtx w ws).words.isEmpty = false := by
+    cases hw : (mkCmdCtx w ws).words with
+    | nil => rw [hw] at hlt; simp at hlt
+    | cons _ _ => rfl
+  simp only [hne, Bool.false_eq_true, ↓reduceIte, hb, ge_iff_le, Nat.not_le.mpr hlt]
+
+/-- hence a rule matching the words after the prefix decides the prefixed command -/
+theorem rule_through_env_prefix (ws : List Word) (cwd : String) (rem : Bool) (m : Match)
+    (hlt : (mkCmdCtx w ws).baseIdx < (mkCmdCtx w ws).words.length)
+    (hb : ((mkCmdCtx w ws).base == "[" || (mkCmdCtx w ws).base == "test") = false)
+    (hm : w.matchCommand ((mkCmdCtx w ws).words.drop (mkCmdCtx w ws).baseIdx) cwd rem = some m) :
+    C03.proper w rec h ws cwd rem = m.decision := by
+  rw [env_prefix_transparent w rec h ws cwd rem hlt hb]
+  apply rule_decides w rec h _ _ cwd rem m _ hm
+  have : ((mkCmdCtx w ws).words.drop (mkCmdCtx w ws).baseIdx).length > 0 := by
+    rw [List.length_drop]; omega
+  cases hd : (mkCmdCtx w ws).words.drop (mkCmdCtx w ws).baseIdx with
+  | nil => rw [hd] at this; simp at this
+  | cons _ _ => rfl
 
 /-- a transparent wrapper hides nothing: unless a rule matches the wrapped form itself,
     the verdict is that of the inner command (so the rules see the inner command) -/
 theorem wrapper_transparent (n : Nat) (W : String) (rest inner : List String) (cwd : String) (rem : Bool)
-    (hW : isAssignLike W = false) (hwr : w.wrapper W = true) (hr : rest.isEmpty = false)
+    (hwr : w.wrapper W = true) (hr : rest.isEmpty = false)
     (hcv : (W == "command" && (rest.headD "" == "-v" || rest.headD "" == "-V")) = false)
     (hskip : skipWrapperArgs rest = inner) (hi : inner.isEmpty = false)
     (hm : w.matchCommand (W :: rest) cwd rem = none) :
     simpleCmd w rec h (n + 1 + 1) (W :: rest) cwd rem = simpleCmd w rec h (n + 1) inner cwd rem := by
-  have ht : tokensOf (W :: rest) = W :: rest := by simp [tokensOf, skipAssign, hW]
-  rw [simpleCmd_unfold _ _ _ _ _ _ _ (by rw [ht]; rfl), ht, hm]
+  rw [simpleCmd_unfold _ _ _ _ _ _ _ (by rfl), hm]
   have hlen : (W :: rest).length > 1 := by
     cases rest with
     | nil => simp at hr
@@ -197,17 +195,13 @@ theorem wrapper_transparent (n : Nat) (W : String) (rest inner : List String) (c
 /-- corollary: a rule on the inner command decides the wrapped command -/
 theorem rule_through_wrapper (n : Nat) (W : String) (rest inner : List String) (cwd : String) (rem : Bool)
     (m : Match)
-    (hW : isAssignLike W = false) (hwr : w.wrapper W = true) (hr : rest.isEmpty = false)
+    (hwr : w.wrapper W = true) (hr : rest.isEmpty = false)
     (hcv : (W == "command" && (rest.headD "" == "-v" || rest.headD "" == "-V")) = false)
-    (hskip : skipWrapperArgs rest = inner) (hi : (tokensOf inner).isEmpty = false)
+    (hskip : skipWrapperArgs rest = inner) (hi : inner.isEmpty = false)
     (hm : w.matchCommand (W :: rest) cwd rem = none)
-    (hmi : w.matchCommand (tokensOf inner) cwd rem = some m) :
+    (hmi : w.matchCommand inner cwd rem = some m) :
     (simpleCmd w rec h (n + 1 + 1) (W :: rest) cwd rem).action = m.decision := by
-  have hi' : inner.isEmpty = false := by
-    cases inner with
-    | nil => simp [tokensOf] at hi
-    | cons _ _ => rfl
-  rw [wrapper_transparent w rec h n W rest inner cwd rem hW hwr hr hcv hskip hi' hm]
+  rw [wrapper_transparent w rec h n W rest inner cwd rem hwr hr hcv hskip hi hm]
   exact rule_decides w rec h n inner cwd rem m hi hmi
 
 end Dippy.C07
